@@ -21,6 +21,9 @@ func (e *execState) shadowBlock(bo *blockObs, txs [][]byte) {
 		// shadows carry the same injected tx-level faults so that they stay comparable
 		*sh.Rec.inj = *e.node.Rec.inj
 		sh.Rec.inj.bankCount, sh.Rec.inj.hookCount = 0, 0
+		if faultOf(bo.Blk, FDiscarded) != nil {
+			e.discardedNoise(sh, bo.Blk, txs)
+		}
 		br := sh.Finalize(bo.Blk.TimeNs, txs, "")
 		if br.Panic != "" || br.Err != nil {
 			e.res.addV("C14", "replica.block_failed", "shadow", fmt.Sprintf("replica %s failed block %d that the primary executed: %v %s", sh.Name, bo.Idx, br.Err, br.Panic), bo.Idx, -1)
